@@ -29,6 +29,8 @@ import (
 	"sort"
 	"strconv"
 	"strings"
+	"sync"
+	"time"
 	"unsafe"
 
 	"github.com/KevoDB/kevo/pkg/config"
@@ -445,6 +447,15 @@ func runConfig(r *runner) {
 		case ws[0] == "openengine" && len(ws) == 1:
 			o, _ := x.openEngine()
 			r.emit(o)
+		case ws[0] == "saverace" && len(ws) == 2:
+			res := make(chan string, 1)
+			go func() { res <- cfgSaveRace(r, atoi(ws[1])) }()
+			select {
+			case o := <-res:
+				r.emit(o)
+			case <-time.After(patience(60 * time.Second)):
+				r.emit("saverace hung (SaveManifest and Update wait for each other)")
+			}
 		default:
 			r.emit("bad-op")
 		}
@@ -521,6 +532,67 @@ func cfgCase(w *bufio.Writer, id string, lines ...string) {
 	}
 }
 
+// cfgSaveRace: one goroutine saves the configuration again and again while another one keeps switching a field between a valid
+// and an invalid value (Config.Update): whatever a save that reported success has stored loads and validates (a save validates and
+// writes ONE state of the configuration)
+func cfgSaveRace(r *runner, iters int) (out string) {
+	defer func() {
+		if p := recover(); p != nil {
+			out = "saverace panic"
+		}
+	}()
+	base := r.tempDir()
+	defer os.RemoveAll(base)
+	// a deep, not yet existing database directory: creating it takes the save a while
+	db := base
+	for i := 0; i < 40; i++ {
+		db = filepath.Join(db, "d")
+	}
+	c := config.NewDefaultConfig(db)
+	stop := make(chan struct{})
+	var wg sync.WaitGroup
+	wg.Add(1)
+	go func() {
+		defer wg.Done()
+		valid := c.MemTableSize
+		for i := 0; ; i++ {
+			select {
+			case <-stop:
+				c.Update(func(c *config.Config) { c.MemTableSize = valid })
+				return
+			default:
+			}
+			if i%2 == 0 {
+				c.Update(func(c *config.Config) { c.MemTableSize = 0 })
+			} else {
+				c.Update(func(c *config.Config) { c.MemTableSize = valid })
+			}
+		}
+	}()
+	saved, refused, bad := 0, 0, ""
+	for i := 0; i < iters && bad == ""; i++ {
+		os.RemoveAll(filepath.Join(base, "d")) // the directory has to be created again by every save
+		if err := c.SaveManifest(db); err != nil {
+			refused++
+			continue
+		}
+		saved++
+		l, err := config.LoadConfigFromManifest(db)
+		switch {
+		case err != nil:
+			bad = "stored-manifest-does-not-load:" + cfgErrClass(err)
+		case l.Validate() != nil:
+			bad = "stored-manifest-invalid"
+		}
+	}
+	close(stop)
+	wg.Wait()
+	if bad != "" {
+		return fmt.Sprintf("saverace bad %s saved=%d refused=%d", bad, saved, refused)
+	}
+	return "saverace ok"
+}
+
 func genConfig(g *gen, n int, tier string, w *bufio.Writer) {
 	infos := cfgFieldInfos()
 	var ints, strs, floats []string
@@ -555,6 +627,7 @@ func genConfig(g *gen, n int, tier string, w *bufio.Writer) {
 			cfgCase(w, fmt.Sprintf("b-%s-%016x", f, b), append([]string{"new", "defaults", fmt.Sprintf("set %s f:%016x", f, b)}, tail...)...)
 		}
 	}
+	cfgCase(w, "b-saverace", "new", "saverace 200")
 	cfgCase(w, "b-zero", "new", "zero", "show", "validate", "save", "load", "openengine", "load")
 	cfgCase(w, "b-defaults", "new", "defaults", "show", "validate", "save", "load", "truncall", "load", "openengine", "load")
 	cfgCase(w, "b-fresh-open", "new", "load", "openengine", "load", "truncall", "openengine", "trunc tail 1", "load", "openengine", "load")
